@@ -1,5 +1,5 @@
 (* C14 / C15: enumerations and field lists over the regenerated IntToStringMap tables. *)
-From GV Require Export Tables.ObsTypes Tables.Lookup Gen.Obs.
+From GV Require Export Tables.ObsTypes Tables.Lookup Gen.ObsEnum.
 
 (* ---- model of XFactory.NewEnum(v int) and XFactory.New(b uint8) ---- *)
 
